@@ -4,9 +4,12 @@ package props
 import (
 	"encoding/json"
 	"fmt"
+	"reflect"
 	"sort"
+	"strings"
 
 	"verifsim/core"
+	"verifsim/pq"
 )
 
 // Acc accumulates what a worker covered.
@@ -149,4 +152,70 @@ func refWrite(w *core.WriterSpec) (*core.WriteResult, bool) {
 		return res, false
 	}
 	return res, true
+}
+
+// leavesOf derives the columns of a shape (path, physical type, maximum
+// definition/repetition level) from the Go struct definition, following the
+// README's mapping: pointer = optional, slice = repeated, nested struct =
+// required group, embedded struct = inlined, name from the parquet tag.
+func leavesOf(t reflect.Type) []pq.Leaf {
+	var out []pq.Leaf
+	var walk func(t reflect.Type, path []string, def, rep int)
+	walk = func(t reflect.Type, path []string, def, rep int) {
+		for i := 0; i < t.NumField(); i++ {
+			f := t.Field(i)
+			if f.PkgPath != "" {
+				continue
+			}
+			name := f.Tag.Get("parquet")
+			if name == "-" {
+				continue
+			}
+			ft := f.Type
+			d, r := def, rep
+			if ft.Kind() == reflect.Ptr {
+				ft = ft.Elem()
+				d++
+			} else if ft.Kind() == reflect.Slice {
+				ft = ft.Elem()
+				d++
+				r++
+			}
+			if ft.Kind() == reflect.Struct {
+				if f.Anonymous {
+					walk(ft, path, d, r)
+				} else {
+					if name == "" {
+						name = f.Name
+					}
+					walk(ft, append(append([]string(nil), path...), name), d, r)
+				}
+				continue
+			}
+			if name == "" {
+				name = f.Name
+			}
+			var pt int64
+			switch ft.Kind() {
+			case reflect.Bool:
+				pt = 0
+			case reflect.Int32, reflect.Uint32:
+				pt = 1
+			case reflect.Int64, reflect.Uint64:
+				pt = 2
+			case reflect.Float32:
+				pt = 4
+			case reflect.Float64:
+				pt = 5
+			case reflect.String:
+				pt = 6
+			default:
+				panic("leavesOf: unsupported kind " + ft.Kind().String())
+			}
+			p := append(append([]string(nil), path...), name)
+			out = append(out, pq.Leaf{Path: strings.Join(p, "."), Type: pt, MaxDef: d, MaxRep: r})
+		}
+	}
+	walk(t, nil, 0, 0)
+	return out
 }
